@@ -839,6 +839,31 @@ func (env *Env) evalCall(e *ast.CallExpr) Val {
 				bail("%s: not a tuple with that component", id.Name)
 			}
 			return x.Tup[k]
+		case "rangeslice":
+			// rangeslice(): the slice the loop named in the enclosing "loop k entry" clause ranges over
+			if fc.curLoop == nil {
+				bail("rangeslice() is only available in loop entry clauses")
+			}
+			rv := fc.rangeSlice(fc.curLoop)
+			if rv == nil {
+				bail("loop %d is not a range loop over a slice", fc.curLoop.ord)
+			}
+			return fc.get(rv)
+		case "inloop":
+			// inloop(k): the program point being executed lies inside loop k of the function (engine-level constant)
+			lit, ok := e.Args[0].(*ast.BasicLit)
+			if !ok {
+				bail("inloop expects a literal loop ordinal")
+			}
+			k, _ := strconv.Atoi(lit.Value)
+			if fc.curBlock != nil {
+				for _, h := range fc.loopOrder {
+					if li := fc.loops[h]; li.ord == k && li.body[fc.curBlock] {
+						return boolVal("true")
+					}
+				}
+			}
+			return boolVal("false")
 		case "ghost":
 			name := e.Args[0].(*ast.Ident).Name
 			return boolVal(fc.H(env.st, fc.ghostVar(name)))
